@@ -13,7 +13,7 @@ from ..modelread import node_satisfied, read_model, shape_of
 ID = 'C02'
 LEVEL = 'exploration'
 RULE = ('Hypothesis arguments from three profiles (generic first-order modal; modal-heavy: 60% modal operators, several '
-        'necessity-type premises; quantifier-heavy) x logic (base logic first, then frame variant) x {group optim} x '
+        'necessity-type premises; quantifier-heavy; identity-heavy with binary and ternary predicates in the classical family) x logic (base logic first, then frame variant) x {group optim} x '
         '{rank optim} x tie-break order seed, built with is_build_models. For every open branch without a limit flag of '
         'a completed invalid tableau: the raw data of the library-built model is read into the reference evaluator and '
         '(1) every node of the branch must be satisfied at its world, access nodes in R, R obeying the frame condition; '
@@ -31,6 +31,8 @@ PROFILES = {
     'generic': gen.Profile(w_atom=5, w_pred=3, w_ident=1, w_neg=4, w_assert=1, w_bin=7, w_modal=4, w_quant=3, max_depth=3),
     'modal-heavy': gen.Profile(w_atom=6, w_pred=1, w_ident=0, w_neg=4, w_assert=0, w_bin=4, w_modal=14, w_quant=0, max_depth=3,
                                natoms=2, bin_ops=('Conjunction', 'Disjunction', 'MaterialConditional', 'Conditional')),
+    'identity-heavy': gen.Profile(w_atom=1, w_pred=8, w_ident=7, w_neg=4, w_assert=0, w_bin=3, w_modal=2, w_quant=1, max_depth=2,
+                                  preds=((1, 0, 2), (0, 0, 1), (2, 0, 3)), consts=(A.const(0), A.const(1), A.const(2))),
     'quant-heavy': gen.Profile(w_atom=2, w_pred=7, w_ident=1, w_neg=3, w_assert=0, w_bin=5, w_modal=2, w_quant=8, max_depth=3,
                                consts=(A.const(1), A.const(0))),
 }
@@ -149,6 +151,9 @@ def check_case(case):
                             f'{prover.case_str(case)}: open limit-free branch {bi}: node {A.show(n["sentence"])}'
                             f'{"" if n["designated"] is None else (" +" if n["designated"] else " -")} at w{n["world"]} is not '
                             f'satisfied by the branch\'s own model ({m.describe()}); {len(sent)} unsatisfied node(s)'))
+        if R.is_classical(logic) and not m.empty_domain and not m.classical_ok():
+            out.append((f'C02|non-classical-model|{fam}', f'{prover.case_str(case)}: the model of open branch {bi} is not a classical structure '
+                        f'(identity not an equivalence respected by every extension, or existence not universal): {m.describe()}'))
         if frame and not R.frame_ok(frame, m.worlds, m.R):
             out.append((f'C02|frame|{frame}*', f'{prover.case_str(case)}: model R {sorted(m.R)} over worlds {m.worlds} violates the {frame} frame condition'))
         try:
@@ -193,9 +198,11 @@ def run_shard(shard, acc):
               phases=[Phase.generate], suppress_health_check=list(HealthCheck))
     @given(st.data())
     def body(data):
-        pname = ('generic', 'modal-heavy', 'modal-heavy', 'quant-heavy')[data.draw(st.integers(0, 3))]
+        pname = ('generic', 'modal-heavy', 'modal-heavy', 'quant-heavy', 'identity-heavy')[data.draw(st.integers(0, 4))]
         if pname == 'modal-heavy':
             logic = data.draw(gen.logic_name(R.is_modal))
+        elif pname == 'identity-heavy':
+            logic = data.draw(gen.logic_name(R.is_classical))
         elif pname == 'quant-heavy':
             logic = data.draw(gen.logic_name(R.is_quantified))
         else:
